@@ -183,6 +183,20 @@ def proof_gate(prop_id):
     rc, out, _ = sh("timeout 1200 coqc %s props/%s.v" % (args, prop_id), cwd=COQ, timeout=1300)
     res["log"] = out
     if rc != 0:
+        # name the statement the kernel rejected: the nearest Theorem / Lemma / Example above the reported line
+        m = re.search(r'File "([^"]+)", line (\d+)', out)
+        if m:
+            fn = m.group(1)
+            fn = fn if os.path.isabs(fn) else os.path.join(COQ, fn)
+            try:
+                lines = open(fn).read().splitlines()[:int(m.group(2))]
+                for l in reversed(lines):
+                    mm = re.match(r"\s*(Theorem|Lemma|Example|Corollary|Definition)\s+(\w+)", l)
+                    if mm:
+                        res["failed_statement"] = "%s %s (%s, line %s)" % (mm.group(1), mm.group(2), os.path.relpath(fn, COQ), m.group(2))
+                        break
+            except OSError:
+                pass
         rep = os.path.join(COQ, "gen", "access_report.txt")
         if prop_id in ("C09", "C08") and os.path.exists(rep) and os.path.getsize(rep) > 0:
             res["log"] += "\nlockset table (translator T2c), unprotected pairs:\n" + open(rep).read()[:6000]
